@@ -250,6 +250,23 @@ Theorem C01_chain_next_result_under_any_schedule scs ops0 ops :
     finished _ w1 = false /\ dropped _ w1 = false /\ returns cst w1 (p_step cst chain_poll c_drops w1 p).
 Proof. exact (chain_next_result scs ops0 ops). Qed.
 Print Assumptions C01_race_resolves_under_any_schedule. Print Assumptions C01_race_ok_resolves_under_any_schedule. Print Assumptions C01_chain_next_result_under_any_schedule.
+(* ... race and race_ok from every reachable state as well: after ANY schedule ops0, if the race has not resolved, any further schedule with more
+   polls than the bound of the freshly constructed race resolves it *)
+Theorem C01_race_resolves_from_every_reachable_state scs ops0 ops i0 k :
+  i0 < length scs -> allgood scs -> lead (nth i0 scs []) = Some k -> sched ops0 -> sched ops ->
+  let w := race_world scs ops0 in finished _ w = false -> k < npolls ops ->
+  exists ops1 p ops2, ops = ops1 ++ p :: ops2 /\ is_poll p = true /\ npolls ops1 <= k /\
+    let w1 := p_world rst race_poll r_drops w ops1 in
+    finished _ w1 = false /\ dropped _ w1 = false /\ returns rst w1 (p_step rst race_poll r_drops w1 p).
+Proof. exact (race_returns_from scs ops0 ops i0 k). Qed.
+Theorem C01_race_ok_resolves_from_every_reachable_state kind scs ops0 ops b :
+  (forall i, i < length scs -> goodf (nth i scs []) = true /\ exists k, lead (nth i scs []) = Some k /\ k <= b) -> sched ops0 -> sched ops ->
+  let w := race_ok_world kind scs ops0 in finished _ w = false -> b < npolls ops ->
+  exists ops1 p ops2, ops = ops1 ++ p :: ops2 /\ is_poll p = true /\ npolls ops1 <= b /\
+    let w1 := p_world kst rok_poll k_drops w ops1 in
+    finished _ w1 = false /\ dropped _ w1 = false /\ returns kst w1 (p_step kst rok_poll k_drops w1 p).
+Proof. exact (race_ok_returns_from kind scs ops0 ops b). Qed.
+Print Assumptions C01_race_resolves_from_every_reachable_state. Print Assumptions C01_race_ok_resolves_from_every_reachable_state.
 (* the premises are satisfiable, and the bounds are attained: child 1 of the race resolves after 2 Pending answers and the third poll returns 9;
    race_ok with bound 1 returns the aggregate error in the second poll; the chain with 2 scripted Pending answers needs 3 polls for its first item *)
 Example C01_pass_witness :
